@@ -200,6 +200,14 @@ class Closure(str):
 	pass
 
 
+class CallFn:
+	"""returned by a model instead of a value: continue by calling this MIR function"""
+
+	def __init__(self, fn, args):
+		self.fn = fn
+		self.args = args
+
+
 UNIT = Agg("()", None, ())
 
 
@@ -597,6 +605,7 @@ class Interp:
 		self.resolve_fn = resolve_fn  # normalized callee name -> Fn or None
 		self.max_steps = max_steps
 		self.stmt_cache = {}
+		self.struct_fields = {}  # struct name -> field names in declaration order
 		self.stats = dict(paths=0, steps=0, forks=0)
 
 	# ---- locations
@@ -644,6 +653,9 @@ class Interp:
 		if not path:
 			return val
 		if not isinstance(v, Agg):
+			hook = self.models.get("@update")
+			if hook is not None:
+				return hook(self, v, path, val)
 			raise MirError("write into field of %r" % (v,))
 		fs = list(v.fields)
 		fs[path[0]] = self.updated(fs[path[0]], path[1:], val)
@@ -712,6 +724,31 @@ class Interp:
 			return (not a) if isinstance(a, bool) else a.negate()
 		if s.startswith("(") and match_close(s, 0) == len(s) - 1:
 			return Agg("tuple", None, [self.operand(st, fi, x) for x in split_top(s[1:-1])])
+		# struct / closure literal:  Path { field: operand, ... }
+		if s.endswith("}") and " { " in s:
+			j = len(s) - 1
+			depth = 0
+			while j >= 0:
+				if s[j] == "}":
+					depth += 1
+				elif s[j] == "{":
+					depth -= 1
+					if depth == 0:
+						break
+				j -= 1
+			path, body = s[:j].strip(), s[j + 1 : -1]
+			named = []
+			for part in split_top(body):
+				k, v = part.split(":", 1)
+				named.append((k.strip(), self.operand(st, fi, v)))
+			ty = "closure" if path.startswith("{closure@") else strip_generics(path).split("::")[-1]
+			order = self.struct_fields.get(ty)
+			if order:
+				d = dict(named)
+				fields = [d[k] for k in order]
+			else:
+				fields = [v for _, v in named]
+			return Agg(ty if ty != "closure" else path, None, fields)
 		# aggregate: Path(args) | Path
 		if s.endswith(")"):
 			k = s.rindex("(") if False else None
@@ -787,7 +824,7 @@ class Interp:
 			st.frames.pop()
 			if not st.frames or st.frames[-1].fn is None:
 				# back in the harness' root frame: the run is complete
-				st.result = v
+				st.result = v if v is not None else UNIT
 				st.aux["root"] = dict(st.frames[-1].locals) if st.frames else {}
 				st.frames = []
 				return [st]
@@ -906,6 +943,13 @@ class Interp:
 		outs = model(self, st, args)
 		res = []
 		for s2, v in outs:
+			if isinstance(v, CallFn):
+				loc = {}
+				for p, a in zip(v.fn.params, v.args):
+					loc[p] = a
+				s2.frames.append(Frame(v.fn, loc, 0, 0, dest, ret_bb))
+				res.append(s2)
+				continue
 			f2 = s2.frames[fi]
 			self.write_loc(s2, self.resolve(s2, fi, dest), v)
 			self.goto(f2, ret_bb)
@@ -914,6 +958,19 @@ class Interp:
 		if len(res) == 1 and res[0] is st:
 			return None
 		return res
+
+	def fn_value_call(self, f, args):
+		"""a CallFn for a closure / function-item value if its MIR is available, else None"""
+		if isinstance(f, Agg) and str(f.ty).startswith("{closure@"):
+			fn = self.resolve_fn("@closure", f.ty, args)
+			return CallFn(fn, [f] + list(args)) if fn is not None else None
+		if isinstance(f, Closure):
+			fn = self.resolve_fn("@closure", f, args)
+			return CallFn(fn, [f] + list(args)) if fn is not None else None
+		if isinstance(f, FnItem):
+			fn = self.resolve_fn(str(f), str(f), args)
+			return CallFn(fn, list(args)) if fn is not None else None
+		return None
 
 	def call_function_value(self, st, f, args):
 		"""applies a function item / closure value (used by the Meta::map model);
